@@ -228,7 +228,18 @@ fn plan(prop: &str, tier: &str) -> Plan {
     // playout seeds: positions deep into deterministic long games (several promoted pieces etc.)
     {
         let heavy = matches!(prop, "C04" | "C06" | "C13");
-        let (n, plies, every, d) = if thorough { (16, 240, 6, if heavy { 1 } else { 2 }) } else { (8, 200, 10, 1) };
+        let light = matches!(prop, "C01" | "C02" | "C03" | "C05" | "C12" | "C19");
+        let (n, plies, every, d) = if thorough {
+            if light {
+                (96, 240, 4, 2)
+            } else {
+                (32, 240, 6, if heavy { 1 } else { 2 })
+            }
+        } else if light {
+            (64, 200, 5, 1)
+        } else {
+            (24, 200, 10, 1)
+        };
         let ps = playout_seeds(n, plies, every);
         let cnt = ps.len();
         let mut promoted = 0;
